@@ -1592,12 +1592,25 @@ impl Linearizer {
     /// * `Err(LinearizationError)` - If linearization fails
     pub fn linearize(model: Model) -> Result<LinearModel, LinearizationError> {
         let (objective, constraints, mut domain) = model.into_components();
+        // the collapse check comes first and sees the declared domains only: bound inference
+        // below already works on the normalised (collapsed) constraints, so its ranges must not
+        // be what makes an operand look like a 0/1 value. The scratch context is dropped.
+        {
+            let declared = BoundsAnalyzer::analyze(&domain, &[]);
+            let mut scratch = Linearizer::new_from_with_bounds(vec![], domain.clone(), declared);
+            check_collapsing_logic_operands(&objective.rhs, &mut scratch)?;
+            for constraint in &constraints {
+                check_collapsing_logic_operands(constraint.lhs(), &mut scratch)?;
+                if !constraint.is_logic_assertion() {
+                    check_collapsing_logic_operands(constraint.rhs(), &mut scratch)?;
+                }
+            }
+        }
         let bounds =
             BoundsAnalyzer::analyze(&domain, &normalized_for_bounds(&constraints)).enforceable(&domain);
         bounds.apply_to_domain(&mut domain);
         let mut context = Linearizer::new_from_with_bounds(constraints, domain, bounds);
         let objective_type = objective.objective_type.clone();
-        check_collapsing_logic_operands(&objective.rhs, &mut context)?;
         let objective_exp = normalize(objective.rhs);
         let objective_requirement = match &objective_type {
             OptimizationType::Min => ValueRequirement::PreferLower,
@@ -1608,10 +1621,6 @@ impl Linearizer {
         while let Some(constraint) = context.pop_constraint() {
             let is_logic_assertion = constraint.is_logic_assertion();
             let (lhs, op, rhs, name) = constraint.into_parts();
-            check_collapsing_logic_operands(&lhs, &mut context)?;
-            if !is_logic_assertion {
-                check_collapsing_logic_operands(&rhs, &mut context)?;
-            }
             let lhs = normalize(lhs);
             let rhs = normalize(rhs);
             if is_logic_assertion {
